@@ -23,7 +23,7 @@
  *
  * usage: c05_solve FILE [vf_solve options: -a u|s -G i|a|c -o D -t f|d ...] -j N --syms FILE
  *          (--random K | --pct K [--depth d] | --replay-file F | --dfs B [--free-switch] [--max-runs M])
- *          [--seed S] [--max-steps n] [--timeout s] [--notrace] [--sched]
+ *          [--seed S] [--max-steps n] [--timeout s] [--notrace] [--sched] [--pool0 K]
  */
 #define _GNU_SOURCE
 #include <stdio.h>
@@ -366,7 +366,7 @@ static int on_run (const vf_run *r, void *user)
 
 int main (int argc, char **argv)
 {
-  int i, dfs = -1, free_switch = 0, depth = 3, timeout_s = 60, nthreads = 0; long nrandom = 0, npct = 0, max_runs = 0, max_steps = 400000, pct_steps = 0;
+  int i, dfs = -1, free_switch = 0, depth = 3, timeout_s = 60, nthreads = 0, pool0 = 0; long nrandom = 0, npct = 0, max_runs = 0, max_steps = 400000, pct_steps = 0;
   unsigned long seed = 1; const char *replay_file = NULL, *symfile = NULL; acc a = { 0, 0 }; vf_opts so; vf_explore_stats st = { 0, 0, 0, 0 };
   char **sv = (char **) calloc ((size_t) argc + 1, sizeof (char *)); int sc = 0;
   sv[sc++] = argv[0];
@@ -385,13 +385,18 @@ int main (int argc, char **argv)
     else if (!strcmp (argv[i], "--timeout") && i + 1 < argc) timeout_s = atoi (argv[++i]);
     else if (!strcmp (argv[i], "--notrace")) notrace = 1;
     else if (!strcmp (argv[i], "--sched")) want_sched = 1;
+    else if (!strcmp (argv[i], "--pool0") && i + 1 < argc) pool0 = atoi (argv[++i]);
     else {
       if (!strcmp (argv[i], "-j") && i + 1 < argc) nthreads = atoi (argv[i + 1]);
       sv[sc++] = argv[i];
     }
   }
   s_argc = sc; s_argv = sv;
-  if (nthreads > 0) { char b[16]; snprintf (b, sizeof b, "%d", nthreads); setenv ("MPS_JOBS", b, 1); }
+  /* the pool of a new context has MPS_JOBS threads.  Default: exactly the -j value (the limit is then neither raised nor
+   * lowered by -j).  --pool0 K: the context starts with K threads and `-j N` RAISES the limit through the grow branch of
+   * mps_thread_pool_set_concurrency_limit; the library lowers it again by itself when the degree is below N. */
+  if (pool0 > 0) { char b[16]; snprintf (b, sizeof b, "%d", pool0); setenv ("MPS_JOBS", b, 1); }
+  else if (nthreads > 0) { char b[16]; snprintf (b, sizeof b, "%d", nthreads); setenv ("MPS_JOBS", b, 1); }
   if (symfile) load_syms (symfile);
   vf_opts_default (&so); so.max_steps = max_steps; so.pct_depth = depth; so.pct_steps = pct_steps > 0 ? (int) pct_steps : 3000;
   if (replay_file) {
